@@ -185,9 +185,19 @@ def _run(case: Dict[str, Any], sim: Sim, world: World) -> None:
         return d
 
     def check_templates(site: str) -> None:
+        """Representatives: every template has a class; two templates carry the same class id iff they are
+        isomorphic (several representatives of one class are legal, two classes for one kind are not)."""
         cls = [t.get("class") for t in templates]
-        if len(set(cls)) != len(cls) or any(c is None for c in cls):
+        if any(c is None for c in cls):
             raise Violation(PROP, site, "template_class_ids_not_unique", "", {"classes": cls})
+        known = [(t.get("class"), seen[t["uid"]]["spec"]) for t in templates
+                 if isinstance(t.get("uid"), int) and 0 <= t["uid"] < len(seen)]
+        for i in range(len(known)):
+            for j in range(i):
+                iso = rcdata.isomorphic(known[i][1], known[j][1])
+                if (known[i][0] == known[j][0]) != iso:
+                    raise Violation(PROP, site, "template_class_ids_not_unique", "",
+                                    {"classes": cls, "a": known[j][1], "b": known[i][1], "isomorphic": iso})
 
     def check_partition(site: str, cond: str) -> None:
         # same class iff isomorphic, over everything delivered so far
@@ -296,7 +306,8 @@ def _run(case: Dict[str, Any], sim: Sim, world: World) -> None:
                     sim.probe("single_batch_no_template_path")
                 cond = "batch_size=%s, %s" % ("None" if bs is None else ("<n" if bs < len(specs) else ">=n"),
                                               "templates carried" if had_templates else "no templates")
-                out, templates = service(op).fit(data, templates, rule_key="gml", attribute_key=akey, batch_size=bs)
+                lib_arg = None if (not templates and op.get("s", 0) % 3 == 0) else templates
+                out, templates = service(op).fit(data, lib_arg, rule_key="gml", attribute_key=akey, batch_size=bs)
             else:
                 site = "BatchCluster.cluster"
                 cond = "templates carried" if had_templates else "no templates"
@@ -369,7 +380,8 @@ def _run(case: Dict[str, Any], sim: Sim, world: World) -> None:
                 sim.probe("restart_between_batches")
             restarted_since_delivery = False
             site = "BatchCluster.lib_check"
-            d, templates = service(op).lib_check(mk(sp, uid), templates, rule_key="gml", attribute_key=akey)
+            lib_arg = None if (not templates and op.get("s", 0) % 3 == 0) else templates
+            d, templates = service(op).lib_check(mk(sp, uid), lib_arg, rule_key="gml", attribute_key=akey)
             if "class" not in d:
                 raise Violation(PROP, site, "item_without_class", "", {"item": sp})
             seen[uid]["cls"] = d["class"]
